@@ -108,16 +108,21 @@ def Mach.emit (m : Mach) (e : Ev) : Mach := { m with log := m.log ++ [e] }
 
 def incr (clock : List Nat) (i d : Nat) : List Nat := clock.modify i (· + d)
 
-/-- `setActiveStates(called, target, _)`. -/
-def setActive (sch : Schema) (active : S) (clock : List Nat) (called target : S) :
-    S × List Nat :=
-  let clock1 := target.foldl (fun c name =>
-    if !active.contains name then incr c name 1
-    else if called.contains name && (sch.get name).multi then incr c name 2
-    else c) clock
-  let removed := diff active target
-  let clock2 := removed.foldl (fun c name => incr c name 1) clock1
-  (target, clock2)
+/-- tick step of a target state in `setActiveStates`: +1 when newly active,
+    +2 for an already active, directly called Multi state, else 0. -/
+def tickDelta (sch : Schema) (active called : S) (name : Nat) : Nat :=
+  if !active.contains name then 1
+  else if called.contains name && (sch.get name).multi then 2
+  else 0
+
+/-- the clock part of `setActiveStates(called, target, _)`. -/
+def tickClock (sch : Schema) (active : S) (clock : List Nat) (called target : S) : List Nat :=
+  let clock1 := target.foldl (fun c name => incr c name (tickDelta sch active called name)) clock
+  (diff active target).foldl (fun c name => incr c name 1) clock1
+
+/-- `setActiveStates(called, target, _)` applied to the machine. -/
+def applyActive (m : Mach) (called target : S) : Mach :=
+  { m with active := target, clock := tickClock m.sch m.active m.clock called target }
 
 /-! ### the transition record -/
 
@@ -161,14 +166,10 @@ def setupAccepted (m : Mach) (t : Tx) : Tx :=
   let isMulti := called.any (fun s => (m.sch.get s).multi)
   if t.mu.isCheck && isMulti then t1 else { t1 with accepted := false }
 
-/-- predicted `TimeAfter` of `newTransition`. -/
+/-- predicted `TimeAfter` of `newTransition` (the same arithmetic as
+    `setActiveStates`, skipped for checks). -/
 def predictTimeAfter (m : Mach) (mu : Mut) (target : S) : List Nat :=
-  if mu.isCheck then m.clock else
-  let c1 := target.foldl (fun c name =>
-    if !m.active.contains name then incr c name 1
-    else if mu.called.contains name && (m.sch.get name).multi then incr c name 2
-    else c) m.clock
-  (diff m.active target).foldl (fun c name => incr c name 1) c1
+  if mu.isCheck then m.clock else tickClock m.sch m.active m.clock mu.called target
 
 /-- `newTransition` (tracer `TransitionInit` included). -/
 def newTx (m : Mach) (mu : Mut) : Mach × Tx :=
@@ -236,17 +237,18 @@ def bumpCount (m : Mach) (k : Nat × HName) : Mach :=
   let c := getCount m k
   { m with counts := (k, c + 1) :: m.counts.filter (fun p => p.1 != k) }
 
+/-- the walk of `recoverFinalPhase` over `finals`: from the state of the latest
+    handler on, undo activations (Enter side) or re-append exits. -/
+def recoverWalk (t : Tx) : S → S → Bool → S
+  | [], acc, _ => acc
+  | s :: rest, acc, found =>
+    if !(found || (t.latestTo == .st s)) then recoverWalk t rest acc false
+    else if t.latestIsEnter then recoverWalk t rest (without acc s) true
+    else recoverWalk t rest (acc ++ [s]) true
+
 /-- `recoverFinalPhase`. -/
 def recoverFinalPhase (m : Mach) (t : Tx) : Mach :=
-  let finals := t.exits ++ t.enters
-  let step := fun (acc : S × Bool) (s : Nat) =>
-    let found := acc.2 || (t.latestTo == .st s)
-    if !found then (acc.1, found)
-    else if t.latestIsEnter then (without acc.1 s, found)
-    else (acc.1 ++ [s], found)
-  let act := (finals.foldl step (m.active, false)).1
-  let (a, c) := setActive m.sch m.active m.clock t.mu.called act
-  { m with active := a, clock := c }
+  applyActive m t.mu.called (recoverWalk t (t.exits ++ t.enters) m.active false)
 
 /-- `recoverToErr`. -/
 def recoverToErr (m : Mach) (t : Tx) : Mach × Tx :=
@@ -382,21 +384,30 @@ def newAutoMutation (m : Mach) : Option Mut :=
 def isHealth (m : Mach) (mu : Mut) : Bool :=
   mu.kind == .add && mu.called.length == 1 && m.sch.health.contains (mu.called.getD 0 0)
 
+/-- one stage of the negotiation phase: skipped once the result is `Canceled`
+    (or the caller goroutine crashed). -/
+def negStep (f : Mach → Tx → Mach × Tx × Bool) (p : Mach × Tx × Bool) : Mach × Tx × Bool :=
+  if p.1.crashed then (p.1, p.2.1, false)
+  else if p.2.2 then f p.1 p.2.1
+  else p
+
+def stageSelfs (orc : Oracle) (m : Mach) (t : Tx) : Mach × Tx × Bool :=
+  if t.mu.kind != .remove then emitSelfs orc t.target.length 0 (t.target.map some) m t
+  else (m, t, true)
+
+/-- none of the auto states accepted → cancel; then the global `AnyEnter`. -/
+def stageAnyEnter (orc : Oracle) (m : Mach) (t : Tx) : Mach × Tx × Bool :=
+  if t.mu.isAuto && t.target.isEmpty then (m, t, false)
+  else handle orc m t .anyEnter .any false true
+
 /-- negotiation phase of `emitEvents`. -/
 def negotiate (orc : Oracle) (m : Mach) (t : Tx) (res0 : Bool) : Mach × Tx × Bool :=
   if !m.hasHandlers then (m, t, res0) else
-  let (m1, t1, r1) := if res0 then emitExits orc t.exits m t else (m, t, res0)
-  if m1.crashed then (m1, t1, false) else
-  let (m2, t2, r2) := if r1 then emitEnters orc t1.enters m1 t1 else (m1, t1, r1)
-  if m2.crashed then (m2, t2, false) else
-  let (m3, t3, r3) :=
-    if r2 && t2.mu.kind != .remove then
-      emitSelfs orc t2.target.length 0 (t2.target.map some) m2 t2
-    else (m2, t2, r2)
-  if m3.crashed then (m3, t3, false) else
-  let (m4, t4, r4) := if r3 then emitSS orc t3.target t3.before m3 t3 else (m3, t3, r3)
-  let r5 := if t4.mu.isAuto && t4.target.isEmpty then false else r4
-  if r5 then handle orc m4 t4 .anyEnter .any false true else (m4, t4, r5)
+  let p1 := negStep (fun m t => emitExits orc t.exits m t) (m, t, res0)
+  let p2 := negStep (fun m t => emitEnters orc t.enters m t) p1
+  let p3 := negStep (stageSelfs orc) p2
+  let p4 := negStep (fun m t => emitSS orc t.target t.before m t) p3
+  negStep (stageAnyEnter orc) p4
 
 /-- final result of `emitEvents` after a non-canceled run. -/
 def postCheck (m : Mach) (t : Tx) : Res :=
@@ -406,58 +417,75 @@ def postCheck (m : Mach) (t : Tx) : Res :=
     if t.target.length > t.before.length then .executed else .canceled
   else if m.is t.target then .executed else .canceled
 
+/-- tail of `emitEvents`: `TransitionEnd` tracers and the returned result. -/
+def finish (m : Mach) (t : Tx) (r : Bool) : Mach × Tx × Res :=
+  let m' := m.emit (.tEnd t.timeBefore t.timeAfter t.accepted m.active m.queue.length)
+  if !r then (m', t, Res.canceled)
+  else if t.mu.isCheck then (m', t, Res.executed)
+  else (m', t, postCheck m' t)
+
+/-- "recheck auto txs": re-resolve with the rejected Auto states dropped. -/
+def recheckAuto (m : Mach) (t : Tx) : Tx :=
+  if t.mu.isAuto then
+    let called := t.mu.called
+    let rejected := diff called t.target
+    let calledClean := diff called rejected
+    let toSet := statesToSet .add m.active calledClean
+    setupExitEnter m { t with target := targetStates (m.rctx t) toSet }
+  else t
+
+/-- queue the auto mutation after an accepted, state-changing, non-auto,
+    non-health transition. -/
+def autoStage (m : Mach) (t : Tx) (changed : Bool) : Mach :=
+  if changed && !t.mu.isAuto && !isHealth m t.mu then
+    match newAutoMutation m with
+    | some am => prepend m am
+    | none => m
+  else m
+
+/-- after the final handlers: recovery, `AnyState`, auto mutation, tail. -/
+def afterFinals (orc : Oracle) (m4 : Mach) (t4 : Tx) (r4 : Bool) : Mach × Tx × Res :=
+  let m5 := if !r4 then recoverFinalPhase m4 t4 else m4
+  let changed := m5.clock != t4.timeBefore
+  let p6 := if r4 && m5.hasHandlers then handle orc m5 t4 .anyState .any true true
+            else (m5, t4, r4)
+  if !p6.2.2 then finish p6.1 { p6.2.1 with accepted := false } false
+  else finish (autoStage p6.1 p6.2.1 changed) p6.2.1 true
+
+/-- the accepted branch of `emitEvents`: apply the target, run the finals. -/
+def applyPhase (orc : Oracle) (m1 : Mach) (t2 : Tx) : Mach × Tx × Res :=
+  let m2 := applyActive m1 t2.mu.called t2.target
+  let t3 := { t2 with timeAfter := m2.clock }
+  let m3 := m2.emit (.tFinals t3.timeAfter m2.active)
+  let p4 := if m3.hasHandlers then emitFinals orc t3.enters (t3.exits ++ t3.enters) m3 t3
+            else (m3, t3, true)
+  afterFinals orc p4.1 p4.2.1 p4.2.2
+
 /-- `emitEvents`. -/
 def emitEvents (orc : Oracle) (m0 : Mach) (t0 : Tx) : Mach × Tx × Res :=
-  let res0 := t0.accepted
   let m := m0.emit (.tStart t0.accepted)
-  let (m1, t1, r1) := negotiate orc m t0 res0
-  if m1.crashed then (m1, t1, .canceled) else
-  let fin := fun (m : Mach) (t : Tx) (r : Bool) =>
-    let m' := m.emit (.tEnd t.timeBefore t.timeAfter t.accepted m.active m.queue.length)
-    if !r then (m', t, Res.canceled)
-    else if t.mu.isCheck then (m', t, Res.executed)
-    else (m', t, postCheck m' t)
-  if t1.mu.isCheck then
-    let t2 := if !r1 then { t1 with accepted := false } else t1
-    fin m1 t2 r1
+  let p := negotiate orc m t0 t0.accepted
+  if p.1.crashed then (p.1, p.2.1, .canceled)
+  else if p.2.1.mu.isCheck then
+    finish p.1 (if !p.2.2 then { p.2.1 with accepted := false } else p.2.1) p.2.2
   else
-    -- recheck auto txs
-    let t2 :=
-      if t1.mu.isAuto then
-        let called := t1.mu.called
-        let rejected := diff called t1.target
-        let calledClean := diff called rejected
-        let toSet := statesToSet .add m1.active calledClean
-        let target := targetStates (m1.rctx t1) toSet
-        setupExitEnter m1 { t1 with target := target }
-      else t1
-    if r1 then
-      let (a, c) := setActive m1.sch m1.active m1.clock t2.mu.called t2.target
-      let m2 := { m1 with active := a, clock := c }
-      let t3 := { t2 with timeAfter := m2.clock }
-      let m3 := m2.emit (.tFinals t3.timeAfter m2.active)
-      let (m4, t4, r4) :=
-        if m3.hasHandlers then emitFinals orc t3.enters (t3.exits ++ t3.enters) m3 t3
-        else (m3, t3, true)
-      let m5 := if !r4 then recoverFinalPhase m4 t4 else m4
-      let changed := m5.clock != t4.timeBefore
-      let (m6, t6, r6) :=
-        if r4 && m5.hasHandlers then handle orc m5 t4 .anyState .any true true
-        else (m5, t4, r4)
-      if !r6 then fin m6 { t6 with accepted := false } false
-      else
-        let m7 :=
-          if changed && !t6.mu.isAuto && !isHealth m6 t6.mu then
-            match newAutoMutation m6 with
-            | some am => prepend m6 am
-            | none => m6
-          else m6
-        fin m7 t6 true
-    else
-      let t3 := { t2 with timeAfter := m1.clock, accepted := false }
-      fin m1 t3 false
+    let t2 := recheckAuto p.1 p.2.1
+    if p.2.2 then applyPhase orc p.1 t2
+    else finish p.1 { t2 with timeAfter := p.1.clock, accepted := false } false
 
 /-! ### the queue -/
+
+/-- shift the queue head (`processQueue`: "shift the queue"). -/
+def shiftQueue (m : Mach) (mu : Mut) (rest : List Mut) : Mach :=
+  let m1 := { m with queue := rest }
+  if mu.qtick > 0 then
+    { m1 with pending := m1.pending - 1, queueTick := m1.queueTick + 1 } else m1
+
+/-- one iteration of the drain loop: shift, `newTransition`, `emitEvents`. -/
+def runOne (orc : Oracle) (m : Mach) (mu : Mut) (rest : List Mut) : Mach × Res :=
+  let p := newTx (shiftQueue m mu rest) mu
+  let q := emitEvents orc p.1 p.2
+  (q.1, q.2.2)
 
 /-- the drain loop of `processQueue`; returns the results in order. -/
 def drain (orc : Oracle) : Nat → Mach → List Res → Mach × List Res
@@ -466,13 +494,9 @@ def drain (orc : Oracle) : Nat → Mach → List Res → Mach × List Res
     match m.queue with
     | [] => (m, rets)
     | mu :: rest =>
-      let m1 := { m with queue := rest }
-      let m2 := if mu.qtick > 0 then
-        { m1 with pending := m1.pending - 1, queueTick := m1.queueTick + 1 } else m1
-      let (m3, t) := newTx m2 mu
-      let (m4, _, res) := emitEvents orc m3 t
-      if m4.crashed then (m4, rets ++ [res]) else
-      drain orc fuel m4 (rets ++ [res])
+      let q := runOne orc m mu rest
+      if q.1.crashed then (q.1, rets ++ [q.2]) else
+      drain orc fuel q.1 (rets ++ [q.2])
 
 /-- `processQueue` from an idle caller. -/
 def processQueue (orc : Oracle) (fuel : Nat) (m : Mach) : Mach × Res :=
